@@ -5,7 +5,12 @@ package, register/unregister/finalize orders, reference-counter moves and memory
 the extracted model; both print the call's result and sc_memory_status of every live package after EVERY call.
 Oracle: an independent ledger in this file (live blocks per package, their bytes), evaluated on every line.
 A second section runs create...destroy lifecycles of library objects (several modules) and checks that every counter
-returns to where it started."""
+returns to where it started.  A third section (parallel) runs every parallel algorithm of libsc on the simulated MPI
+(tools/simmpi) for every communicator size 1..9 and reads sc_memory_status of the libsc and the default package at
+barriers before and after EVERY library call: once every rank destroyed what it held the counters must be where they
+were (a leak is reported with call, P, rank, block size and input); sc_finalize_noabort () must return 0 at the end.
+T1: Gen/AllocC10.v (pointer arithmetic, package table) and Gen/LedgerC10.v (ownership events of sc_notify_recursive,
+proved balanced on every path) are regenerated from the working tree before the theorems are checked."""
 import os, sys, json
 import vlib
 
@@ -504,7 +509,7 @@ def translate_and_prove(ctx, groups):
 
 
 def run(ctx):
-    translate_and_prove(ctx, ["AllocC10"])
+    translate_and_prove(ctx, ["AllocC10", "LedgerC10"])
     v = ctx.variant(mpi="off", san=True)
     exe = ctx.cc([os.path.join(vlib.TOOLS, "harness", "c10_harness.c")], os.path.join(ctx.scratch, "c10_harness"), v, extra=(WRAP,))
     nh = 700 if ctx.quick else 12000
@@ -584,10 +589,14 @@ def run(ctx):
     if rc != 0 and nviol == 0:
         ctx.tie_broken("c10 harness run", "exit %s: %s" % (rc, err[-1500:]))
     lifecycle(ctx, v)
+    parallel(ctx)
     ctx.cov["disagreements_checked"] = nops
     ctx.cov["rule"] = ("a case is one history of allocation / package calls; after EVERY call the result tokens (handle, ptr mod 8, ptr - raw, the two "
                        "bookkeeping words, bytes read, ids, error counts) and sc_memory_status of the default package and of every registered id are "
-                       "compared between libsc, the extracted model and the independent ledger; non-trivial = more than 2 calls; distinct = distinct call lists")
+                       "compared between libsc, the extracted model and the independent ledger; non-trivial = more than 2 calls; distinct = distinct call lists; "
+                       "a lifecycle case is one create..destroy round of one object kind; a parallel case is one library call (sc_notify variants, sc_allgather, sc_reduce, sc_psort, "
+                       "sc_stats_compute, sc_shmem, sc_ranges_adaptive) on P simulated ranks, bracketed by readings of sc_memory_status (libsc package and default package) at barriers: "
+                       "both must be unchanged after every rank destroyed what it held; non-trivial = P > 1")
     ctx.cov["exhaustive"] = False
     ctx.notes["op_distribution"] = dist
     ctx.notes["operations_total"] = nops
@@ -606,7 +615,11 @@ def run(ctx):
                                "the generated definitions are validated through the model they are proved equal to, which the correspondence run executes); the counting statements and the remaining "
                                "table policy are tied by the correspondence run only",
                                "malloc/free of libc: a fresh block disjoint from all live ones, content arbitrary (junk); the harness wraps malloc to choose raw mod 8",
-                               "sc_package_rc_count_add is reached through src/sc_private.h (reference counters only move in debug builds otherwise)"]
+                               "sc_package_rc_count_add is reached through src/sc_private.h (reference counters only move in debug builds otherwise)",
+                               "parallel lifecycles: tools/simmpi (scheduler, barriers: nothing runs on any rank between the two barriers of a reading), the harness c10_parallel.c; "
+                               "the attribution of a leaked block to a rank (wrapped malloc, bookkeeping words of sc_malloc_aligned) is diagnosis only",
+                               "T1 ledger of sc_notify_recursive: tools/c2g/ledgerlib.py (table C call -> ownership event, refusal of everything else that touches an array) and the abstraction "
+                               "of an owner sc_array_t to 'holds at most one block' (C08_ledger_balanced for resize / push)"]
     ctx.assumptions += ["histories satisfy the documented preconditions (legal_step): package -1 or registered, a block is freed/reallocated with the package it was obtained for, no use after free, writes inside the requested size",
                         "addresses and sizes below 2^62 (no wrap of size_t in alloc_size)"]
     return "proof"
@@ -635,3 +648,274 @@ def lifecycle(ctx, v):
     if rc != 0 or n == 0:
         ctx.violation("life-crash", "lifecycle harness failed (exit %s): %s" % (rc, err[-1200:]), dict(stderr=err[-3000:]))
     ctx.notes["lifecycles"] = n
+
+
+# ----------------------------------------------------------------------------------------------------
+# parallel create ... destroy lifecycles on the simulated MPI (tools/simmpi): the ledger is read at barriers before and
+# after EVERY library call of every parallel module, for every communicator size 1..9 (and some larger ones)
+# ----------------------------------------------------------------------------------------------------
+PAR_TYPES = ["allgather", "binary", "nary", "pex", "pcx", "rsx", "nbx", "ranges", "superset"]
+PAR_API = {0: "sc_notify_payload", 1: "sc_notify", 2: "sc_notify_allgather", 3: "sc_notify_ext", 4: "sc_notify_nary"}
+PAR_WRAP = "-Wl,--wrap=malloc,--wrap=free,--wrap=realloc"
+
+
+class ParOp:
+    def __init__(self, kind, name, lines, what):
+        self.kind, self.name, self.lines, self.what = kind, name, lines, what
+
+    def text(self):
+        return "".join(l + "\n" for l in self.lines)
+
+
+def par_notify(rng, P, typ, api, paymode, style=None, stats=0):
+    import notify_common as nc
+    style = style or rng.choice(nc.STYLES)
+    R = nc.gen_pattern(rng, P, style)
+    paysize = rng.choice([1, 3, 4, 5, 8, 12, 17]) if paymode else 0
+    sorted_, seps, sepp = rng.randrange(2), rng.randrange(2), rng.randrange(2)
+    thr = rng.choice([0, 4, 8, 1024, 1024])
+    head = "N %d %d %d %d %d %d %d %d %d %d %d %d %d %d" % (typ, api, paymode, paysize, sorted_, seps, sepp, rng.choice([2, 2, 3, 4, 5]), rng.choice([2, 2, 3, 4]),
+                                                           rng.choice([2, 2, 3, 4, 5]), rng.choice([1, 2, 3, 5, 25]), thr, rng.randrange(1 << 30), stats)
+    lines = [head]
+    for p in range(P):
+        l = [str(len(R[p]))] + [str(q) for q in R[p]]
+        if paymode == 2:
+            l += [str(rng.choice([0, 0, 1, 2, 3, 7])) for _ in R[p]]
+        lines.append(" ".join(l))
+    fn = PAR_API[api] if not (api == 0 and paymode == 2) else "sc_notify_payloadv"
+    name = "%s[%s]" % (fn, PAR_TYPES[typ]) if api == 0 else fn
+    what = "%s%s, %s, %s senders%s%s; receivers per rank %s" % (
+        name, " with an sc_statistics_t attached" if stats else "",
+        ["no payload", "items of %d bytes" % paysize, "variable slices of %d-byte items" % paysize][paymode],
+        "separate" if seps else "in-place", (", %s payload" % ("separate" if sepp else "in-place")) if paymode else "",
+        ", sorted=%d" % sorted_ if api == 0 else "", " ".join("%d:%s" % (p, R[p]) for p in range(P)).replace(" ", "").replace("]", "] ").strip())
+    return ParOp("N", name, lines, what)
+
+
+def par_ops(rng, P, full):
+    """the operations every communicator size must see; `full` = the complete family (P <= 9), otherwise a sample"""
+    ops = []
+    # notify through the controller object: every algorithm x (no payload, fixed items, variable slices)
+    for typ in range(9):
+        for pm in ((0, 1, 2) if full else (rng.randrange(3),)):
+            ops.append(par_notify(rng, P, typ, 0, pm))
+    # the binary recursion once more on the patterns that keep data on every level, and through the legacy entry points
+    for st in (("all", "dense", "empty", "rand") if full else ("dense",)):
+        ops.append(par_notify(rng, P, 1, 0, 0, style=st))
+    for st in (("empty", "all", "rand") if full else ("rand",)):
+        ops.append(par_notify(rng, P, 1, 1, 0, style=st))
+    for st in (("rand", "dense") if full else ("rand",)):
+        ops.append(par_notify(rng, P, 0, 2, 0, style=st))
+    for api in (3, 4):
+        for pm in ((0, 1) if full else (rng.randrange(2),)):
+            ops.append(par_notify(rng, P, 0, api, pm))
+    for _ in range(2 if full else 1):
+        ops.append(par_notify(rng, P, rng.randrange(9), 0, rng.randrange(2), stats=1))
+    # sc_allgather and its two algorithms
+    for mode in ((0, 0, 1, 2) if full else (0, rng.choice([1, 2]))):
+        bs = rng.choice([0, 1, 3, 8, 8, 12, 24])
+        ops.append(ParOp("G", ["sc_allgather", "sc_allgather_recursive", "sc_allgather_alltoall"][mode], ["G %d %d %d" % (bs, rng.randrange(1 << 16), mode)], "blocks of %d bytes" % bs))
+    # sc_reduce / sc_allreduce / custom operators
+    for target in ((-1, -1, 0, P - 1, rng.randrange(P)) if full else (-1, rng.randrange(P))):
+        op = rng.randrange(4)
+        dt = 1 if op == 3 else rng.randrange(9)
+        count = rng.choice([0, 1, 2, 3, 5]) if op != 3 else rng.choice([2, 4])
+        nm = ("sc_allreduce" if target < 0 else "sc_reduce") + ("_custom" if op == 3 else "")
+        ops.append(ParOp("R", nm, ["R %d %d %d %d %d" % (op, dt, count, target, rng.randrange(1 << 16))],
+                         "op %s, datatype #%d, count %d%s" % (["MIN", "MAX", "SUM", "custom"][op], dt, count, "" if target < 0 else ", target %d" % target)))
+    # sc_psort
+    for _ in range(2 if full else 1):
+        st = rng.choice(["small", "zeros", "one", "equal", "wide"])
+        counts = [{"small": rng.randrange(0, 6), "zeros": rng.choice([0, 0, 0, 4]), "one": 1, "equal": 3, "wide": rng.choice([0, 1, 17, 40])}[st] for _ in range(P)]
+        cmpid = rng.randrange(5)
+        size = rng.choice([4, 8, 12, 24, 65, 100])
+        kr = rng.choice([1, 2, 3, 10, 1000, (1 << 31) - 1]) if cmpid != 3 else rng.choice([3, 10, 1000])
+        ops.append(ParOp("S", "sc_psort", ["S %d %d %d %d %s" % (size, cmpid, rng.randrange(1 << 16), kr, " ".join(map(str, counts)))],
+                         "elements of %d bytes, comparison #%d, key range %d, counts per rank %s" % (size, cmpid, kr, counts)))
+    # statistics
+    for (kind, mode) in (((0, 0), (1, 0), (0, 1), (1, 1)) if full else ((rng.randrange(2), rng.randrange(2)),)):
+        nv = rng.choice([0, 1, 2, 3, 8]) if mode == 0 else rng.choice([1, 2, 5])
+        nm = ("sc_stats_compute1" if kind else "sc_stats_compute") if mode == 0 else "sc_statistics_compute"
+        ops.append(ParOp("T", nm, ["T %d %d %d %d" % (nv, kind, rng.randrange(1 << 16), mode)],
+                         "%d variables%s" % (nv, " (set1 / accumulate / copied names)" if mode == 0 else " in an sc_statistics_t (new, add, accumulate, compute, %sdestroy)" % ("print, " if kind else ""))))
+    # ranges
+    for _ in range(2 if full else 1):
+        nr, glob, dens = rng.choice([1, 2, 3, 5, 25]), rng.randrange(2), rng.choice([0, 10, 30, 60, 100])
+        ops.append(ParOp("A", "sc_ranges_adaptive", ["A %d %d %d %d %d" % (nr, rng.randrange(2), rng.randrange(1 << 16), dens, glob)],
+                         "at most %d ranges, peer density %d%%%s" % (nr, dens, ", global ranges returned and decoded" if glob else "")))
+    return ops
+
+
+def par_shmem(rng, P, ppn, flavour):
+    pa = rng.choice([0, ppn, ppn, -1]) if rng.random() < 0.9 else -1
+    dt, cnt, dup = rng.randrange(8), rng.choice([0, 1, 1, 2, 3, 5]), int(rng.random() < 0.3)
+    return ParOp("M", "sc_shmem[%s]" % ["basic", "prescan", "window", "window_prescan"][flavour], ["M %d %d %d %d %d %d" % (flavour, dt, cnt, pa, dup, rng.randrange(1 << 16))],
+                 "dup, %s, sc_shmem_malloc x3, sc_shmem_allgather, sc_shmem_prefix, sc_shmem_memcpy, write_start/end, free, detach on %s; datatype #%d, count %d, %d ranks per node" % (
+                     "no node communicators" if pa < 0 else ("sc_mpi_comm_attach_node_comms (%d)" % pa), "a duplicate of the communicator" if dup else "the communicator", dt, cnt, ppn))
+
+
+class ParCase:
+    def __init__(self, P, seed, adv, ppn, ops):
+        self.P, self.seed, self.adv, self.ppn, self.ops = P, seed, adv, ppn, ops
+
+    def text(self):
+        return "CASE %d %d %d %d 0 %d\n" % (self.P, self.seed, self.adv, self.ppn, len(self.ops)) + "".join(o.text() for o in self.ops)
+
+
+def par_cases(ctx):
+    rng = ctx.rng
+    cases = []
+    full = list(range(1, 10)) if ctx.quick else list(range(1, 18))
+    more = [10, 11, 13, 16, 17] if ctx.quick else [19, 21, 24, 31, 32, 33]
+    reps = 1 if ctx.quick else 4
+    for P in full + more:
+        for rep in range(reps):
+            ops = par_ops(rng, P, P in full)
+            rng.shuffle(ops)
+            divs = [d for d in range(1, P + 1) if P % d == 0]
+            per = 8
+            chunks = [ops[i:i + per] for i in range(0, len(ops), per)]
+            for ci, ch in enumerate(chunks):
+                ppn = divs[(ci + rep) % len(divs)]
+                # shared-memory arrays: every flavour on every node size over the chunks of this P
+                ch = list(ch)
+                if P in full or ci == 0:
+                    ch.insert(rng.randrange(len(ch) + 1), par_shmem(rng, P, ppn, (ci + rep) % 4))
+                cases.append(ParCase(P, rng.randrange(1 << 30), (ci + P + rep) % 8, ppn, ch))
+    return cases
+
+
+def par_run(ctx, exe, cases):
+    """returns list of dict(rc, report, R=[(lib, def, agree)], leaks={k: [(rank, size)]}, bad=[...]) per case, final tuple or None, stderr"""
+    text = "".join(c.text() for c in cases)
+    env = dict(os.environ, ASAN_OPTIONS="detect_leaks=0:abort_on_error=0", UBSAN_OPTIONS="print_stacktrace=1")
+    rc, lines, err = ctx.run_lines([exe], text, timeout=(600 if ctx.quick else 6000), env=env)
+    runs, cur, final = [], None, None
+    for l in lines:
+        w = l.split()
+        if not w:
+            continue
+        if w[0] == "RUN":
+            cur = dict(rc=int(w[2].split("=")[1]), report="", R=[], leaks={}, bad=[], ended=False)
+            runs.append(cur)
+        elif w[0] == "FINAL":
+            final = tuple(int(x.split("=")[1]) for x in w[1:4])
+        elif cur is None:
+            continue
+        elif w[0] == "REPORT":
+            cur["report"] = l[7:].replace("~", "\n")
+        elif w[0] == "R":
+            cur["R"].append((int(w[3]), int(w[4]), int(w[5])))
+        elif w[0] == "LEAK":
+            cur["leaks"].setdefault(int(w[2]), []).append((int(w[3].split("=")[1]), int(w[4].split("=")[1])))
+        elif w[0] == "BAD":
+            cur["bad"].append(l)
+        elif w[0] == "END":
+            cur["ended"] = True
+    return rc, runs, final, err
+
+
+def parallel(ctx):
+    src = os.path.join(vlib.TOOLS, "harness", "c10_parallel.c")
+    if not os.path.exists(src):
+        ctx.tie_broken("c10 parallel harness", "tools/harness/c10_parallel.c is missing")
+        return
+    v = ctx.variant(mpi="sim", san=True, cflags_extra=("-fno-sanitize=nonnull-attribute,alignment",),
+                    config_defs=("SC_ENABLE_MPICOMMSHARED", "SC_ENABLE_MPIWINSHARED"))
+    exe = ctx.cc([src, os.path.join(vlib.TOOLS, "simmpi", "simmpi.c")], os.path.join(ctx.scratch, "c10_parallel"), v, extra=(PAR_WRAP,))
+    cases = par_cases(ctx)
+    if ctx.replay:
+        rp = json.load(open(ctx.replay)).get("replay", {})
+        if "par_case" in rp:
+            rc0, runs0, fin0, err0 = par_run(ctx, exe, [_RawCase(rp["par_case"])])
+            ctx.log("replayed parallel case: %s" % (runs0[0] if runs0 else err0[-400:]))
+    rc, runs, final, err = par_run(ctx, exe, cases)
+    dist = {"P": {}, "call": {}, "adversary": {}, "ranks_per_node": {}}
+    nops = nleak = nsanity = 0
+    sanity = []
+    failing = []
+    allok = True
+    for ci, c in enumerate(cases):
+        r = runs[ci] if ci < len(runs) else None
+        for o in c.ops:
+            ctx.count_case(("par", c.P, c.adv, c.ppn, tuple(o.lines)), nontrivial=c.P > 1)
+            dist["call"][o.name] = dist["call"].get(o.name, 0) + 1
+        dist["P"][c.P] = dist["P"].get(c.P, 0) + len(c.ops)
+        dist["adversary"][c.adv] = dist["adversary"].get(c.adv, 0) + 1
+        dist["ranks_per_node"][c.ppn] = dist["ranks_per_node"].get(c.ppn, 0) + 1
+        nops += len(c.ops)
+        if r is None or not r["ended"]:
+            allok = False
+            m = [l for l in err.split("\n") if "ERROR" in l or "runtime error" in l or "SUMMARY" in l or "HANG" in l]
+            ctx.violation("par-crash", "parallel lifecycle harness ended with status %s inside the run P=%d adversary=%d calls [%s]: %s" % (
+                rc, c.P, c.adv, ", ".join(o.name for o in c.ops), " | ".join(m)[:500] or err[-400:]), dict(par_case=c.text(), P=c.P, stderr=err[-3000:]))
+            break
+        if r["rc"] != 0:
+            allok = False
+            ctx.violation("par-run:P%d-%s" % (c.P, "+".join(sorted(set(o.kind for o in c.ops)))),
+                          "parallel lifecycle run did not end normally (simmpi code %d) P=%d adversary=%d calls [%s]; blocks held by the abandoned ranks cannot be returned: %s" % (
+                              r["rc"], c.P, c.adv, ", ".join(o.name for o in c.ops), r["report"][:300]), dict(par_case=c.text(), P=c.P, report=r["report"][:2500]))
+            continue
+        nsanity += len(r["bad"])
+        for b in r["bad"][:2]:
+            w = b.split()
+            sanity.append("%s P=%d %s: %s" % (c.ops[int(w[2])].name, c.P, c.ops[int(w[2])].lines[0], " ".join(w[3:])))
+        if len(r["R"]) != len(c.ops) + 1:
+            ctx.tie_broken("c10 parallel harness output", "%d readings for %d calls" % (len(r["R"]), len(c.ops)))
+            continue
+        if not all(x[2] for x in r["R"]):
+            ctx.tie_broken("c10 parallel harness protocol", "ranks read different counters between two barriers (P=%d)" % c.P)
+        for k, o in enumerate(c.ops):
+            (l0, d0, _), (l1, d1, _) = r["R"][k], r["R"][k + 1]
+            if l1 != l0 or d1 != d0:
+                nleak += 1
+                failing.append((c, k, o, (l0, l1, d0, d1), r["leaks"].get(k, [])))
+    # shrink: the failing call alone in a run of its own (same P, schedule seed, adversary)
+    shown = []
+    for f in failing:           # one report per (call, P), at most four
+        if (f[2].name, f[0].P) not in [(g[2].name, g[0].P) for g in shown]:
+            shown.append(f)
+    for (c, k, o, st, leaks) in shown[:4]:
+        single = ParCase(c.P, c.seed, c.adv, c.ppn, [o])
+        rc1, runs1, fin1, err1 = par_run(ctx, exe, [single])
+        alone = bool(runs1) and runs1[0]["rc"] == 0 and len(runs1[0]["R"]) == 2 and runs1[0]["R"][0][:2] != runs1[0]["R"][1][:2]
+        if alone:
+            st = (runs1[0]["R"][0][0], runs1[0]["R"][1][0], runs1[0]["R"][0][1], runs1[0]["R"][1][1])
+            leaks = runs1[0]["leaks"].get(0, [])
+        byrank = {}
+        for rk, sz in leaks:
+            byrank.setdefault(rk, []).append(sz)
+        who = "; ".join("rank %d keeps %d block(s) of %s bytes" % (rk, len(s_), sorted(s_)) for rk, s_ in sorted(byrank.items())) or "no surviving block identified"
+        ctx.violation("par-leak:%s-P%d" % (o.name, c.P),
+                      "%s on P=%d ranks is not balanced: %s; sc_memory_status (sc_package_id) %d -> %d, (-1) %d -> %d over the call with everything the callers held destroyed; "
+                      "input: %s; simulated MPI adversary %d, schedule seed %d, %d ranks per node" % (o.name, c.P, who, st[0], st[1], st[2], st[3], o.what[:900], c.adv, c.seed, c.ppn),
+                      dict(par_case=(single if alone else c).text(), call=o.name, call_index=(0 if alone else k), P=c.P, adversary=c.adv, schedule_seed=c.seed, ranks_per_node=c.ppn,
+                           leaking_ranks=byrank, status_libsc=[st[0], st[1]], status_default=[st[2], st[3]], input=o.what, input_lines=o.lines,
+                           reproduced_alone=alone, unbalanced_calls_in_this_run=len(failing)))
+    if allok and len(runs) == len(cases):
+        if final is None:
+            ctx.violation("par-crash", "parallel lifecycle harness ended (status %s) without reaching sc_finalize_noabort: %s" % (rc, err[-400:]), dict(stderr=err[-3000:]))
+        elif nleak == 0 and final[0] != 0:
+            # every call was balanced and every object destroyed: finalize must report no error
+            ctx.violation("par-finalize", "after %d parallel lifecycle runs with every call balanced and every object destroyed sc_finalize_noabort () returned %d "
+                          "(status before: libsc %d, default %d)" % (len(cases), final[0], final[1], final[2]), dict(final=list(final)))
+    ctx.notes["parallel_input_distribution"] = ("simulated MPI, P = 1..9 complete family (quick) + samples for P = 10, 11, 13, 16, 17; per P: all 9 notify algorithms x (no payload, fixed items 1..17 bytes "
+                                                "around the eager threshold, variable slices), sorted 0/1, in-place / separate outputs, binary algorithm on all / dense / empty / random patterns, legacy "
+                                                "sc_notify / sc_notify_allgather / sc_notify_ext / sc_notify_nary, notify with statistics attached; sc_allgather (3 algorithms, blocks 0..24 bytes); "
+                                                "sc_reduce / sc_allreduce / custom (9 datatypes, counts 0..5, targets 0, P-1, random); sc_psort (sizes 4..100, 5 comparisons, empty ranks); sc_stats_compute[1] "
+                                                "with copied names, sc_statistics_t; sc_shmem 4 flavours x node sizes dividing P x attach explicit / split_type / none x dup; sc_ranges_adaptive + decode; "
+                                                "8 scheduler adversaries, random schedule seeds; calls shuffled into runs of about 9 calls")
+    ctx.notes["parallel_lifecycles"] = dict(runs=len(cases), calls=nops, unbalanced_calls=nleak, sanity_failures=nsanity, sanity_examples=sanity[:6], finalize=(final[0] if final else None), distribution=dist)
+    if nsanity:
+        ctx.log("parallel lifecycles: %d result sanity failures (not a C10 matter; see C01-C05, C13, C14): %s" % (nsanity, " | ".join(sanity[:3])))
+    ctx.log("parallel lifecycles: %d runs, %d library calls bracketed, %d unbalanced" % (len(cases), nops, nleak))
+    if cases:
+        ctx.sample({"parallel_lifecycle": "P=%d %s" % (cases[len(cases) // 2].P, cases[len(cases) // 2].ops[0].what[:120])})
+
+
+class _RawCase:
+    def __init__(self, text):
+        self._t = text
+
+    def text(self):
+        return self._t
